@@ -166,7 +166,9 @@ func RunDaemon() {
 			ui.Info("Received SIGTERM signal, exiting...")
 			return nil
 		}, func(err error) {
-			defer close(sig)
+			// the channel stays registered with os/signal and must not be closed:
+			// a further signal arriving while the fans are being restored would
+			// make the runtime's signal goroutine panic on the closed channel
 			cancel()
 		})
 	}
